@@ -59,6 +59,72 @@ static void checkConsistency(const Position& Q, const std::vector<UnMove>& ums, 
     (void)origin;
 }
 
+// Directed starts for the rare (P, m) classes random games practically never produce.
+// (a) an unmoved corner rook that still carries its castling right is captured - by any kind of piece, the king included
+static bool cornerRookCapture(Rng& r, ref::Pos& P, ref::Mv& first) {
+    using namespace ref;
+    Pos p; for (int i = 0; i < 64; i++) p.b[i] = EMPTY;
+    bool targetWhite = r.chance(50);
+    int corner = (targetWhite ? 0 : 56) + (r.chance(50) ? 0 : 7);
+    // victim side: king on its home square, the target rook (and maybe the other one) with rights
+    int vk = targetWhite ? 4 : 60;
+    p.b[vk] = targetWhite ? WK : BK; p.b[corner] = targetWhite ? WR : BR;
+    p.castle = (corner == 0 ? CW_LONG : corner == 7 ? CW_SHORT : corner == 56 ? CB_LONG : CB_SHORT);
+    int otherCorner = (targetWhite ? 0 : 56) + (corner % 8 == 0 ? 7 : 0);
+    if (r.chance(50)) { p.b[otherCorner] = targetWhite ? WR : BR; p.castle |= (otherCorner == 0 ? CW_LONG : otherCorner == 7 ? CW_SHORT : otherCorner == 56 ? CB_LONG : CB_SHORT); }
+    // capturer
+    int kind = (const int[]){K_K, K_K, K_Q, K_R, K_B, K_N, K_P}[r.below(7)];
+    int own = targetWhite ? BK : WK;
+    int from = -1;
+    for (int t = 0; t < 100 && from < 0; t++) {
+        int s = r.below(64); if (p.b[s]) continue;
+        int dx = fileOf(s) - fileOf(corner), dy = rankOf(s) - rankOf(corner), ax = std::abs(dx), ay = std::abs(dy);
+        bool ok = false;
+        switch (kind) {
+        case K_K: ok = ax <= 1 && ay <= 1; break;
+        case K_N: ok = (ax == 1 && ay == 2) || (ax == 2 && ay == 1); break;
+        case K_R: ok = (dx == 0 || dy == 0); break;
+        case K_B: ok = ax == ay; break;
+        case K_Q: ok = dx == 0 || dy == 0 || ax == ay; break;
+        case K_P: ok = ax == 1 && dy == (targetWhite ? 1 : -1); break;    // promotion capture
+        }
+        if (ok) from = s;
+    }
+    if (from < 0) return false;
+    p.b[from] = own + kind;
+    if (kind != K_K) { for (int t = 0; t < 100; t++) { int s = r.below(64); if (!p.b[s]) { p.b[s] = own; break; } } }
+    int extra = r.range(0, 6);
+    for (int i = 0; i < extra; i++) { int s = r.below(64); if (p.b[s]) continue; int k2 = (const int[]){K_Q, K_R, K_B, K_N, K_P, K_P}[r.below(6)]; if (k2 == K_P && (rankOf(s) == 0 || rankOf(s) == 7)) continue; p.b[s] = (r.chance(50) ? WK : BK) + k2; }
+    p.wtm = !targetWhite; p.ep = -1; p.hmc = r.below(30); p.fullMove = 30;
+    if (!plausible(p) || !posgen::countsOk(p)) return false;
+    std::vector<Mv> l; genLegal(p, l);
+    std::vector<Mv> caps; for (auto& m : l) if (m.from == from && m.to == corner) caps.push_back(m);
+    if (caps.empty()) return false;
+    P = p; first = caps[r.below((int)caps.size())];
+    return true;
+}
+
+// (b) an e.p. right with capturing pawns on both neighbouring files of which exactly one may capture (the other is pinned)
+static bool epOneOfTwo(Rng& r, ref::Pos& P) {
+    using namespace ref;
+    Pos p; for (int i = 0; i < 64; i++) p.b[i] = EMPTY;
+    bool whitePushed = r.chance(50);
+    int f = r.range(1, 6), rk = whitePushed ? 3 : 4;
+    int pushed = whitePushed ? WP : BP, capt = whitePushed ? BP : WP;
+    p.b[sq(f, rk)] = pushed; p.b[sq(f - 1, rk)] = capt; p.b[sq(f + 1, rk)] = capt;
+    p.ep = sq(f, whitePushed ? 2 : 5);
+    // kings and a few pieces at random: the filter below keeps the positions where exactly one capture is legal
+    for (int c = 0; c < 2; c++) for (int t = 0; t < 100; t++) { int s = r.below(64); if (!p.b[s] && s != p.ep && s != sq(f, whitePushed ? 1 : 6)) { p.b[s] = c ? BK : WK; break; } }
+    int extra = r.range(1, 5);
+    for (int i = 0; i < extra; i++) { int s = r.below(64); if (p.b[s] || s == p.ep || s == sq(f, whitePushed ? 1 : 6)) continue; int k2 = (const int[]){K_Q, K_R, K_R, K_B, K_B, K_N}[r.below(6)]; p.b[s] = (r.chance(65) == whitePushed ? WK : BK) + k2; }
+    p.wtm = !whitePushed; p.castle = 0; p.hmc = 0; p.fullMove = 30;
+    if (!plausible(p) || !posgen::countsOk(p)) return false;
+    std::vector<Mv> l; genLegal(p, l);
+    int n = 0; for (auto& m : l) if (isEnPassant(p, m)) n++;
+    if (n != 1) return false;
+    P = p; return true;
+}
+
 int main(int argc, char** argv) {
     requireSelfTest();
     ComputerPlayer::initEngine();
@@ -76,15 +142,24 @@ int main(int argc, char** argv) {
         else if (k < 7) start = tricky[r.below((int)tricky.size())];
         else if (k < 9) { start = storm[r.below((int)storm.size())]; st = posgen::STORM; }
         else start = posgen::synthetic(r, r.below(posgen::T_NTEMPLATES));
+        ref::Mv forced; bool haveForced = false;
+        bool directed = false;
+        if (r.chance(30)) {
+            bool ok = false; directed = true;
+            if (r.chance(50)) { for (int t = 0; t < 300 && !ok; t++) ok = cornerRookCapture(r, start, forced); if (ok) { haveForced = true; rep.add("directed_corner_rook_capture_walks"); } }
+            else { for (int t = 0; t < 3000 && !ok; t++) ok = epOneOfTwo(r, start); if (ok) rep.add("directed_ep_one_of_two_capturers_walks"); }
+            if (!ok) continue;
+        }
         if (!ref::epLegal(start)) start.ep = -1;
         Position pos;
         if (!readFEN(ref::toFEN(start), pos)) continue;
         ref::Pos R = start;
-        int len = r.range(5, 150);
+        int len = directed ? r.range(1, 5) : r.range(5, 150);
         for (int ply = 0; ply < len && done < npairs; ply++) {
             std::vector<ref::Mv> l; ref::genLegal(R, l);
             if (l.empty()) break;
             ref::Mv rm = posgen::pickMove(r, R, l, st);
+            if (ply == 0 && haveForced) rm = forced;
             Move m = toEng(rm);
             Position P(pos); UndoInfo ui;
             setCrumb("completeness " + TextIO::toFEN(P) + " move " + ref::mvStr(rm));
